@@ -1,6 +1,65 @@
-import IndicatorVerif.Model.Strategies
-import IndicatorVerif.Model.StrategyOps
-/- C14 — theorems under construction -/
+import IndicatorVerif.Props.C05
+import IndicatorVerif.Props.C08
+/-
+  C14 — strategy reports: one value per date in every column.
+
+  The reports are built in two shapes: (a) the date axis covers all n snapshots and every indicator
+  column is `Shift(column, idle, 0)`; (b) the date axis, closings, annotations and outcomes are
+  `Skip(…, idle)` and the indicator columns are used as computed.  For both shapes the theorems
+  below give "same number of values as dates" from the alignment (`Good`) of the indicator stream at
+  exactly `idle` (C02) and from the length laws of the action stream (C05), its normalisation and the
+  outcome (C08).  Per-report instances: MACD (shape a).  The APO report is proved as-is to be one
+  value longer than the date axis (known finding).  The other reports are tied by the check's
+  oracle (column channel lengths and row contents read from the real `Report` values).
+-/
 namespace C14
-theorem placeholder_true : True := trivial
+open Sig Ind Strat
+
+variable {α : Type} [Arith α]
+
+/-- shape (a): a column `Shift(ind, w, fill)` over a stream aligned at `w` has one value per snapshot -/
+theorem shifted_column_length (ind : Sig α) (w A : Nat) (fill : α) (h : Good ind w A) (x : Nat → Nat → α) (n : Nat)
+    (hn : w ≤ n) : (evalL (envOf x A n) (shift w fill ind)).length = n := by
+  rw [C05.evalL_shift]; simp [h.length x n]; omega
+
+/-- … and the value in row d (d ≥ w) is the one computed for date d -/
+theorem shifted_column_row (ind : Sig α) (w A : Nat) (fill : α) (h : Good ind w A) (x : Nat → Nat → α) (n d : Nat)
+    (hd : w ≤ d) (hdn : d < n) : (evalL (envOf x A n) (shift w fill ind))[d]? = some (den x ind d) := by
+  rw [C05.evalL_shift, List.getElem?_append_right (by simpa using hd)]
+  simp only [List.length_replicate]
+  rw [h.kth x n (d - w) (by omega)]; congr 2; omega
+
+/-- shape (b): the date axis `Skip(dates, k)` and a column aligned at `k` have the same number of values -/
+theorem skipped_axis_length (j k A : Nat) (hj : j < A) (ind : Sig α) (h : Good ind k A) (x : Nat → Nat → α) (n : Nat) :
+    (evalL (envOf x A n) (skip k (input j))).length = (evalL (envOf x A n) ind).length := by
+  have hd : Good (skip k (input j : Sig α)) (0 + k) A := Good.skip k (Good.input j A hj)
+  rw [hd.length x n, h.length x n]; omega
+
+/-- annotation column: one annotation per action -/
+theorem annotation_length (actions : List Action) : (Action.normalize actions).length = actions.length :=
+  C08.normalize_length actions
+
+/-- outcome column: one outcome per (closing, action) pair -/
+theorem outcome_column_length (closings : List α) (actions : List Action) (h : closings.length = actions.length) :
+    (StratOps.outcome closings actions).length = closings.length := by
+  rw [C08.outcome_length, h]; simp
+
+/-- MACD report (shape a): both indicator columns have exactly n values for every n ≥ idle -/
+theorem macd_report_columns (p1 p2 p3 : Nat) (h1 : 1 ≤ p1) (h12 : p1 ≤ p2) (h3 : 1 ≤ p3)
+    (x : Nat → Nat → α) (n : Nat) (hn : p2 + p3 - 2 ≤ n) :
+    ∀ col ∈ macd p1 p2 p3 (sClose : Sig α),
+      (evalL (envOf x 5 n) (shift (p2 + p3 - 2) zero col)).length = n := by
+  intro col hcol
+  apply shifted_column_length col (p2 + p3 - 2) 5 zero _ x n hn
+  simp only [macd, List.mem_cons, List.not_mem_nil, or_false] at hcol
+  rcases hcol with hc | hc <;> subst hc <;> (simp only [Strat.sClose]; unfold_ind; good_tac)
+
+/-- **Known finding, as-is**: the APO column of ApoStrategy.Report is `Shift(apo, SlowPeriod, 0)` while APO
+    is aligned at `SlowPeriod − 1`: n + 1 values for n dates. -/
+theorem apo_report_column_too_long (f s : Nat) (h0 : 1 ≤ f) (h1 : f ≤ s) (x : Nat → Nat → α) (n : Nat) (hn : s - 1 ≤ n) :
+    (evalL (envOf x 5 n) (shift s zero (apo f s (sClose : Sig α)))).length = n + 1 := by
+  have hg : Good (apo f s (sClose : Sig α)) (s - 1) 5 := by
+    simp only [Strat.sClose]; unfold_ind; good_tac
+  rw [C05.evalL_shift]; simp [hg.length x n]; omega
+
 end C14
